@@ -84,15 +84,33 @@ int main (int argc, char** argv)
       snprintf (what, 160, "%u estimates: forward insertion gives the weighted mean", n); expect (what, f.val, swx / sw, 1e-10); expect (std::string (what) + " (variance)", f.var, 1 / sw, 1e-10);
       snprintf (what, 160, "%u estimates: reverse insertion agrees with forward insertion", n); expect (what, r.val, f.val, 1e-10); expect (std::string (what) + " (variance)", r.var, f.var, 1e-10);
       snprintf (what, 160, "%u estimates: a binary merge tree agrees with one-at-a-time insertion", n); expect (what, t.val, f.val, 1e-10); expect (std::string (what) + " (variance)", t.var, f.var, 1e-10);
+      // the same through the converting constructors (an accumulator built from one estimate, then merged)
+      { MeanEstimate<double> viaCtor; for (auto& e : xs) { MeanEstimate<double> one (e); viaCtor += one; }
+        Estimate<double> c = viaCtor.get_Estimate ();
+        snprintf (what, 160, "%u estimates: merging accumulators constructed from single estimates agrees with insertion", n); expect (what, c.val, f.val, 1e-10); expect (std::string (what) + " (variance)", c.var, f.var, 1e-10); }
       // circular mean of angles clustered around a direction away from the multiples of pi/2 (those are the known finding)
       std::vector< Estimate<double> > as; for (unsigned k=0; k<n; k++) as.push_back (Estimate<double> (0.7 + 0.3 * rnd () + 2 * M_PI * int (3 * rnd ()), 0.01 + std::fabs (rnd ())));
       as.push_back (Estimate<double> (0.7 + 0.3, 0.5)); as.push_back (Estimate<double> (0.7 - 0.3, 0.5));
       MeanRadian<double,double> cf, cr, ct1, ct2; for (auto& e : as) cf += e; for (unsigned k=as.size (); k>0; k--) cr += as[k-1];
       for (unsigned k=0; k<as.size (); k++) { if (k % 2) ct1 += as[k]; else ct2 += as[k]; } ct1 += ct2;
+      { MeanRadian<double,double> cc; for (auto& e : as) { MeanRadian<double,double> one (e); cc += one; } Estimate<double> a4 = cc.get_Estimate (), a1b = cf.get_Estimate ();
+        snprintf (what, 160, "%u angles: merging accumulators constructed from single angles agrees with insertion", n); expect (what, a4.val, a1b.val, 1e-10); expect (std::string (what) + " (variance)", a4.var, a1b.var, 1e-10); }
       Estimate<double> a1 = cf.get_Estimate (), a2 = cr.get_Estimate (), a3 = ct1.get_Estimate ();
       snprintf (what, 160, "%u angles: reverse insertion agrees with forward insertion", n); expect (what, a2.val, a1.val, 1e-10); expect (std::string (what) + " (variance)", a2.var, a1.var, 1e-10);
       snprintf (what, 160, "%u angles: merging two halves agrees with one-at-a-time insertion", n); expect (what, a3.val, a1.val, 1e-10); expect (std::string (what) + " (variance)", a3.var, a1.var, 1e-10);
     } }, 1);
+  // an accumulator constructed from (or assigned) a single estimate behaves as an empty accumulator to which it was added:
+  // zero-variance entries carry no weight, and a single small angle (cosine exactly 1) keeps a finite circular mean
+  fn ("single_entry_paths_plain", [] {
+    { MeanEstimate<double> a (Estimate<double> (3.0, 0.0)); a += Estimate<double> (1.0, 1.0); Estimate<double> r = a.get_Estimate ();
+      expect ("accumulator constructed from a zero-variance estimate, then 1 +- 1: value", r.val, 1.0); expect ("... variance", r.var, 1.0); }
+    { MeanEstimate<double> a; a = Estimate<double> (3.0, 0.0); MeanEstimate<double> b (Estimate<double> (2.0, 0.5)); b += a; Estimate<double> r = b.get_Estimate ();
+      expect ("merging an accumulator assigned a zero-variance estimate changes nothing: value", r.val, 2.0); expect ("... variance", r.var, 0.5); }
+    { MeanEstimate<double> a (Estimate<double> (0.0, 0.0)); Estimate<double> r = a.get_Estimate (); expect ("accumulator holding only a zero-variance entry: value 0", r.val, 0.0); expect ("... variance 0", r.var, 0.0); }
+    for (double ang : { 0.0, 1e-9, -1e-9, 1e-3 }) { MeanRadian<double,double> viaCtor (Estimate<double> (ang, 0.01)); MeanRadian<double,double> viaAdd; viaAdd += Estimate<double> (ang, 0.01);
+      Estimate<double> r1 = viaCtor.get_Estimate (), r2 = viaAdd.get_Estimate (); char what[160];
+      snprintf (what, 160, "circular mean of the single angle %g: constructed = inserted", ang); expect (what, r1.val, r2.val); expect_true (std::string (what) + " (finite)", std::isfinite (r1.val) && std::isfinite (r1.var)); }
+  }, 1);
 #endif
   symx::finish ();
   return 0;
